@@ -338,9 +338,13 @@ def gen_main(module, name, header_text, script, imports_spec=None, instances=1, 
         if nth[ins] % 2 == 0 and 0 not in ename:          # every other call OF THIS INSTANCE (its projection does not depend on the interleaving)
             # every other call goes through the name table <module>FuncExports (lookup by name, call through the row's pointer), the
             # others through the <module>_<name> symbol: both must reach the exported function
-            ptype = "%s (*)(void*%s)" % (CT[sig.results[0]] if sig.results else "void", "".join(", " + CT[t] for t in sig.params))
+            # the row's pointer is the exported function itself: a defined function takes <module>Instance*, an exported import is one of
+            # the host functions above (void*): call through exactly that type
+            fexp = [e.index for e in module.exports if e.kind == "func" and bytes(e.name) == ename][0]
+            itype = "void*" if fexp < n_fi else "%sInstance*" % name
+            ptype = "%s (*)(%s%s)" % (CT[sig.results[0]] if sig.results else "void", itype, "".join(", " + CT[t] for t in sig.params))
             pre = 'wasmFunc lk = lookupExport(%d, %s); if (lk == NULL) { OUT("r %d nolookup\\n"); } else ' % (ins, c_string(ename), cn)
-            call = "((%s)lk)((void*)&INST(%d)%s)" % (ptype, ins, argl)
+            call = "((%s)lk)((%s)&INST(%d)%s)" % (ptype, itype, ins, argl)
         if sig.results:
             f, a = show(sig.results[0], "r")
             stmt = '%s{ %s r = %s; OUT("r %d val %s\\n", %s); }' % (pre, CT[sig.results[0]], call, cn, f, a)
